@@ -390,7 +390,7 @@ class AugmentedMPS(BaseAPIClass):
 
         tmp_gammas = []
         for g in gammas:
-            tmp_gamma = np.array(g, dtype=NpDtype)
+            tmp_gamma = np.array(g, dtype=NpDtype, order="C")
             shape = deepcopy(tmp_gamma.shape)
             rank = len(shape)
             if rank == 4:
